@@ -446,3 +446,116 @@ Proof.
   - apply forallb_forall. intros e He. apply existsb_eqb_in. destruct (Hin e He) as (x & Hg & Hi).
     apply in_flat_map. exists (cb_id e, x). split; [apply get_In; exact Hg|exact Hi].
 Qed.
+
+(** ** a response *)
+Lemma n_outputs_reqs t t' id b : reqs t' = reqs t -> n_outputs t' id b = n_outputs t id b.
+Proof. intros E. unfold n_outputs. rewrite E. reflexivity. Qed.
+
+Lemma respond_log c s rid prov kind s' :
+  respond c s rid prov kind = Okk s' ->
+  exists x, get (rid_ctx rid) (ctxs s) = Some x
+    /\ cblog s' = cblog s ++ (if x_mod x && (x_bresp x + 1 =? x_breq x)
+                               then [(0, rid_ctx rid, x_batch x, n_outputs s' (rid_ctx rid) (x_batch x),
+                                      if x_bthr x <=? n_outputs s' (rid_ctx rid) (x_batch x) then 1 else 0)] else []).
+Proof.
+  intros H. unfold respond in H. destruct rid as [[[id batch] hh] ii]. cbn [rid_ctx].
+  destruct ((0 <=? prov) && negb (kind =? 2)); cbv beta iota zeta delta [negb] in H; [|discriminate].
+  match type of H with context [@get reqid request ?i ?k (reqs s)] =>
+    destruct (@get reqid request i k (reqs s)) as [q|] eqn:Eq end; [|discriminate].
+  destruct (get id (ctxs s)) as [x|] eqn:Ex; [|discriminate]. exists x. split; [reflexivity|].
+  destruct (q_prov q =? prov) eqn:Ep; cbv beta iota zeta delta [negb] in H; [|discriminate].
+  destruct (q_active q); cbv beta iota zeta delta [negb] in H; [|discriminate].
+  destruct (add_earned_fee c s prov (q_fd q) (q_fee q)) as [s1|] eqn:Ef; [|discriminate].
+  assert (F : cblog s1 = cblog s /\ ctxs s1 = ctxs s).
+  { unfold add_earned_fee in Ef. destruct (send _ _ _ _ _); [|discriminate].
+    destruct (q_fee q <? _); [discriminate|]. inversion Ef; subst. split; reflexivity. }
+  destruct F as (Fl & Fc).
+  change (x_bresp (cx_bresp x (x_bresp x + 1))) with (x_bresp x + 1) in H. change (x_breq (cx_bresp x (x_bresp x + 1))) with (x_breq x) in H.
+  change (x_mod (cx_bresp x (x_bresp x + 1))) with (x_mod x) in H.
+  destruct (x_bresp x + 1 =? x_breq x).
+  - destruct (x_mod x); cbn [andb].
+    + set (s3 := with_g_out _ _) in H.
+      assert (Hg3 : get id (ctxs s3) = Some x) by (subst s3; simpl; rewrite Fc; exact Ex).
+      destruct (callback_spec s3 id x Hg3) as (L & _ & R). inversion H; subst s'; clear H. cbn [cblog with_ctxs].
+      rewrite L. rewrite !(n_outputs_reqs s3 (with_ctxs (callback s3 id) _) id (x_batch x)) by (cbn [reqs with_ctxs]; exact R).
+      subst s3. simpl. rewrite Fl. reflexivity.
+    + inversion H; subst s'; clear H. simpl. rewrite Fl, app_nil_r. reflexivity.
+  - rewrite andb_false_r. inversion H; subst s'; clear H. simpl. rewrite Fl, app_nil_r. reflexivity.
+Qed.
+
+(** ** every other step logs nothing *)
+Lemma cblog_step_same c s st :
+  is_endblock st = false -> (forall txh rid prov kind, st <> Tx txh (MRespond rid prov kind)) ->
+  cblog (apply c s st) = cblog s.
+Proof.
+  intros Heb Hnr. destruct (is_module_call c st) eqn:Em.
+  - destruct st; try discriminate. destruct m; try discriminate. simpl in Em. unfold apply. cbn [exec_step exec_msg]. rewrite Em.
+    destruct (call_module c s txh svc provs cons inok capd capa timeout rep freq total) as [s'| |] eqn:Ec; try reflexivity.
+    destruct (call_module_shape _ _ _ _ _ _ _ _ _ _ _ _ _ _ Ec) as (s1 & id & x & q' & E1 & _ & _ & _ & _ & _ & _ & _ & _ & _ & _ & _ & _ & _ & _ & _ & _ & _ & CB & _).
+    rewrite CB. clear -E1. unfold create_context in E1. repeat dmn E1; inversion E1; subst; reflexivity.
+  - destruct (apply_no_msvc c s st Em) as [Ea|Ea]; rewrite Ea; [|reflexivity].
+    pose proof (no_msvc_lt c) as Hm. set (c0 := no_msvc c) in *. clearbody c0.
+    unfold apply. destruct (exec_step c0 s st) as [s'| |] eqn:E; try reflexivity.
+    destruct st as [txh m|dt| | | | | | |]; cbn [exec_step] in E; try discriminate Heb.
+    + rewrite (exec_msg_plain_eq _ _ _ _ Hm) in E. destruct m; simpl in E;
+        try (unfold define, bind, update_binding, set_withdraw, enable, disable, refund_deposit, msg_ctl, k_pause, k_start, k_kill, update_context, withdraw in E;
+             repeat dmn E; inversion E; subst; reflexivity).
+      * unfold call in E. destruct (negb _); [discriminate|].
+        destruct (create_context _ _ _ _ _ _ _ _ _ _ _ _ _ _ _ _) as [[s2 id]|] eqn:E0; [|discriminate]. inversion E; subst.
+        clear -E0. unfold create_context in E0. repeat dmn E0; inversion E0; subst; reflexivity.
+      * exfalso. exact (Hnr _ _ _ _ eq_refl).
+    + inversion E; subst. reflexivity.
+    + repeat dmn E; inversion E; subst; reflexivity.
+    + destruct (create_context _ _ _ _ _ _ _ _ _ _ _ _ _ _ _ _) as [[s2 id]|] eqn:E0; [|discriminate]. inversion E; subst.
+      clear -E0. unfold create_context in E0. repeat dmn E0; inversion E0; subst; reflexivity.
+    + unfold k_pause in E. repeat dmn E; inversion E; subst; reflexivity.
+    + unfold k_start in E. repeat dmn E; inversion E; subst; reflexivity.
+    + unfold k_kill in E. repeat dmn E; inversion E; subst; reflexivity.
+    + unfold bind in E. repeat dmn E; inversion E; subst; reflexivity.
+Qed.
+
+(** ** C08 clause 7, the step-wise list, on the model's own observation of any step *)
+Lemma c08_cb_step univ c s st pc pn pb :
+  good_step st -> QInv s -> LInv false s -> BatchInv s -> NoDup (keys (ctxs s)) ->
+  same_set (expected_cb (obs_of univ pc pn pb s) st (obs_step univ c s st)) (o_cb (obs_step univ c s st)) = true.
+Proof.
+  intros Hg Hq Hl Hb Hk. destruct st as [txh m|dt| | | | | | |].
+  2: { apply c08_cb_endblock; assumption. }
+  all: try (unfold obs_step; cbn [obs_of o_cb expected_cb]; rewrite cblog_step_same by (try reflexivity; intros; discriminate); rewrite skipn_all; reflexivity).
+  destruct m; try (unfold obs_step; cbn [obs_of o_cb expected_cb]; rewrite cblog_step_same by (try reflexivity; intros; discriminate); rewrite skipn_all; reflexivity).
+  (* a response *)
+  unfold obs_step, apply. cbn [exec_step exec_msg exec_msg_plain].
+  destruct (respond c s rid prov kind) as [s'| |] eqn:Er; cbn [obs_of o_cb o_code res_code expected_cb Z.eqb]; try (rewrite skipn_all; reflexivity).
+  destruct (respond_log c s rid prov kind s' Er) as (x & Hx & L). rewrite L, skipn_app_len.
+  change (o_ctxs (obs_of univ pc pn pb s)) with (map (fun e : ctxid * context => (fst e, ctx_tuple (snd e))) (ctxs s)).
+  rewrite (get_map_val ctx_tuple). change (Check.rid_ctx rid) with (rid_ctx rid). rewrite Hx. cbn [option_map ctx_tuple t_mod t_bresp t_breq t_batch t_bthr].
+  rewrite !outputs_in_obs. apply same_set_self.
+Qed.
+
+Theorem model_passes_C08_clause_7_lemma :
+  forall c steps h0 t0 l0 univ,
+    NoDup (create_txhs steps) -> Forall good_step steps ->
+    forall pre st post, steps = pre ++ st :: post ->
+    forall seen tr sc pc pn pb,
+      let s := run c (init h0 t0 l0) pre in
+      holds_C08 seen (cb_keys (cblog s)) tr sc (obs_of univ pc pn pb s) st (obs_step univ c s st) <> 7.
+Proof.
+  intros c steps h0 t0 l0 univ Hnd Hgood pre st post E seen tr sc pc pn pb s Ek.
+  assert (Hnd1 : NoDup (create_txhs (pre ++ [st]))).
+  { rewrite E in Hnd. replace (pre ++ st :: post) with ((pre ++ [st]) ++ post) in Hnd by (rewrite <- app_assoc; reflexivity).
+    rewrite create_txhs_app in Hnd. exact (NoDup_app_l _ _ Hnd). }
+  assert (Hnd0 : NoDup (create_txhs pre)) by (rewrite create_txhs_app in Hnd1; exact (NoDup_app_l _ _ Hnd1)).
+  assert (Hg : good_step st) by (apply (proj1 (Forall_forall _ _) Hgood); rewrite E; apply in_elt).
+  pose proof (fresh_history_from_distinct_hashes_lemma c pre h0 t0 l0 Hnd0) as Hf.
+  assert (G : SL s) by (subst s; apply (run_inv_fresh SL c); [intros; apply SL_apply_m; assumption|exact Hf|split; [apply SInv_init|apply LInv_init]]).
+  destruct G as ((Hq & Hb) & Hl). pose proof (reach_K c pre h0 t0 l0) as Hk. fold s in Hk.
+  destruct (model_passes_C08_clause_7_history_lemma c pre st h0 t0 l0 univ Hnd1) as (_ & _ & H14 & H15). cbv zeta in H14, H15. fold s in H14, H15.
+  apply first_fail_in in Ek; [|lia]. unfold holds_C08 in Ek; cbv zeta in Ek.
+  do 13 (split_seg Ek; [not_here Ek|]).
+  split_seg Ek.
+  { destruct Ek as [Ek|[]]. injection Ek as Ek. exact (eq_true_false_abs _ (c08_cb_step univ c s st pc pn pb Hg Hq Hl Hb Hk) Ek). }
+  split_seg Ek.
+  { apply in_map_iff in Ek. destruct Ek as (k & Ek & Hin). injection Ek as Ek. exact (eq_true_false_abs _ (H14 k Hin) Ek). }
+  split_seg Ek; [|not_here Ek].
+  apply in_map_iff in Ek. destruct Ek as (e & Ek & Hin). injection Ek as Ek. exact (eq_true_false_abs _ (H15 e Hin) Ek).
+Qed.
